@@ -39,7 +39,7 @@ def main():
             continue
         commits = [c.strip() for c in re.split(r"[,+ ]+", f["commit"]) if c.strip()]
         # later fixes that build on the same lines have to be reverted with it (oldest first in this list)
-        commits += {"F3": ["17d0b5a"], "F2": ["a629afe", "929d2b3"], "F15": ["929d2b3"]}.get(fid, [])
+        commits += {"F3": ["17d0b5a"], "F2": ["3713dc3", "a629afe", "929d2b3"], "F15": ["929d2b3"]}.get(fid, [])
         todo.append((fid, f, commits))
     for fid, f, commits in todo:
         mid = "revert-%s" % fid
